@@ -27,6 +27,21 @@ pub struct Case17 {
     pub tree: Sx,
     pub plans: Vec<EntropyPlan>,
     pub sched: IoSchedule,
+    /// non-zero: seed of a per-atom representation plan (inline, own heap buffer via concat,
+    /// substring view, number constructors) for the tree handed to the serializer
+    #[serde(default)]
+    pub repr: u64,
+}
+
+/// a long right spine (the shape of wgen::gen_far_repeat)
+fn is_far_repeat(t: &Sx) -> bool {
+    let mut n = t.root;
+    let mut len = 0;
+    while let SxNode::P(_, r) = t.nodes[n as usize] {
+        n = r;
+        len += 1;
+    }
+    len >= 390
 }
 
 impl Scenario for C17 {
@@ -37,10 +52,20 @@ impl Scenario for C17 {
     fn generate(rng: &mut Rng, tier: Tier, _run: u64) -> Case17 {
         let mut tree = gen_sharing_tree(rng, tier == Tier::Thorough);
         // quick: mostly up to 700 nodes; 1 in 200 up to 6000 (paths longer than 63 bytes)
+        if tier == Tier::Quick && is_far_repeat(&tree) && rng.chance(3, 4) {
+            // keep the quick batch short: a quarter of the long lists
+            let cfg = TreeCfg {
+                far_repeat: false,
+                ..TreeCfg::swarm(rng, false)
+            };
+            tree = gen_tree(rng, &cfg);
+        }
         let cap = if tier == Tier::Thorough || rng.chance(1, 200) { 6000 } else { 700 };
-        while tree.nodes.len() > cap || model::ser_len(&tree) > 8 << 20 {
+        // (long lists with a far repeat are kept whatever their size: < 3300 nodes)
+        while (tree.nodes.len() > cap && !is_far_repeat(&tree)) || model::ser_len(&tree) > 8 << 20 {
             let cfg = TreeCfg {
                 max_leaves: cap / 4,
+                far_repeat: false,
                 ..TreeCfg::swarm(rng, false)
             };
             tree = gen_tree(rng, &cfg);
@@ -50,6 +75,7 @@ impl Scenario for C17 {
             tree,
             plans: entropy_plans(rng, k),
             sched: IoSchedule::benign(rng, 48, true),
+            repr: if rng.chance(1, 3) { rng.next_u64() | 1 } else { 0 },
         }
     }
 
@@ -57,7 +83,7 @@ impl Scenario for C17 {
         let mut out = Outcome::default();
         let mut fp = Fp::default();
         let mut a = Allocator::new();
-        let Ok(node) = case.tree.to_alloc(&mut a) else {
+        let Ok(node) = crate::scen::interp2::to_alloc_repr(&mut a, &case.tree, case.repr, &mut out) else {
             return out;
         };
         let classic_len = model::ser_len(&case.tree);
@@ -196,6 +222,9 @@ impl Scenario for C17 {
                 plans: case.plans[..2].to_vec(),
                 ..case.clone()
             });
+        }
+        if case.repr != 0 {
+            v.push(Case17 { repr: 0, ..case.clone() });
         }
         v
     }
@@ -366,6 +395,7 @@ impl Scenario for C19 {
     fn generate(rng: &mut Rng, tier: Tier, _run: u64) -> Case19 {
         let thorough = tier == Tier::Thorough;
         let mut cfg = TreeCfg::swarm(rng, false);
+        cfg.far_repeat = false;
         cfg.max_leaves = cfg.max_leaves.min(if thorough { 400 } else { 80 });
         cfg.share_pct = cfg.share_pct.max(30);
         cfg.huge_atoms = false;
